@@ -245,6 +245,8 @@ Definition run_c06 (l : list N) : list N :=
   | 1 :: rc :: rest => c06_insert (negb (rc =? 0)) (firstn 26 rest) (skipn 26 rest)
   | 2 :: rc :: nkeys :: nsteps :: rest =>
       c06_account (negb (rc =? 0)) (N.to_nat nkeys) (c06_steps (N.to_nat nsteps) rest [])
+  (* sub 3: a compressed column: rc, the length of what was stored (the compressed bytes) -> the tier it belongs in *)
+  | 3 :: rc :: len :: _ => [select_tier (negb (rc =? 0)) true len]
   | _ => err_marker
   end.
 
